@@ -190,7 +190,7 @@ def concurrent_session(kind, msgs, pause_plan, stagger, after_reconnect=False, b
         if after_reconnect:
             # the sends happen on the client's second connection (first link lost, reconnected)
             first = sim.conns[-1]
-            first.reset(simgw.serial_loss_exception() if kind == "waveshare" else ConnectionResetError(104, "reset by peer"))
+            first.reset(simgw.link_loss(kind))
             for _ in range(3000):
                 if len(sim.conns) > 1 and sim.client.state.name == "CONNECTED":
                     break
@@ -517,7 +517,7 @@ def run_write_failure(spec, acc):
                 sim.connect_script = [("accept", 0.001)] + [("refuse", ConnectionRefusedError(111, "refused") if kind != "waveshare" else OSError(2, "No such file or directory"), 0.01)] * refusals
                 sim.spawn("connect")
                 await asyncio.sleep(0.1)
-                sim.conns[-1].reset(simgw.serial_loss_exception() if kind == "waveshare" else ConnectionResetError(104, "reset by peer"))
+                sim.conns[-1].reset(simgw.link_loss(kind))
                 await asyncio.sleep(0.05 + 0.2 * (variant // 3))
                 for _ in range(1 + variant % 2):
                     sim.spawn("send", others[0])              # during the retry wait: nothing to write on
@@ -558,7 +558,7 @@ def run_write_failure(spec, acc):
                 await asyncio.sleep(0.1)
                 conn = sim.conns[-1]
                 conn.fail_write_after = i
-                conn.fail_exc = simgw.serial_loss_exception() if kind == "waveshare" else BrokenPipeError(32, "broken pipe")
+                conn.fail_exc = simgw.link_loss(kind, write=True)
                 sim.t_send = sim.loop.time()
                 t_ = sim.spawn("send", m)
                 await asyncio.wait([t_], timeout=60.0)
